@@ -749,3 +749,21 @@ PROPS["C39"] = dict(
     trusted_base=MIR_TB,
     mir=True,
 )
+
+PROPS["C09"] = dict(
+    title="Resources cannot vanish or be duplicated inside a transaction",
+    functions=["radix_engine::blueprints::resource::WorktopBlueprint::{put, take, take_all, assert_contains, "
+               "assert_contains_amount, drain} (via the verif dispatcher verif_worktop_invoke)"],
+    bounds="one step of each operation from every worktop holding <= 2 buckets of distinct resources (of 3) with any "
+           "amounts <= 10^12 XRD, any requested resource / amount, any incoming bucket",
+    outside="ONLY the worktop clauses of the property are decided ('taking from the worktop never yields more than was put "
+            "there', 'worktop assertions pass exactly when the worktop holds the asserted amounts', nothing is lost in a "
+            "worktop step). Outside: take_non_fungibles / assert_contains_non_fungibles, the Cuttlefish "
+            "assert_resources_* (C37 decides the constraint semantics), worktop drop, bucket and proof lifecycles, the "
+            "transaction processor and the kernel's end-of-transaction checks",
+    assumptions=["the actor's field store returns what was written; Bucket::{amount, put, take, drop_empty}, "
+                 "ResourceManager::new_empty_bucket behave by their contracts over a symbolic amount per bucket (take fails "
+                 "when asked for more than the bucket holds, drop_empty fails on a non-empty bucket)"],
+    trusted_base=MIR_TB,
+    mir=True,
+)
